@@ -1,4 +1,159 @@
+(* C09 -- strict key exchange stops handshake sequence-number manipulation (Terrapin).
+   Property statements only; every proof is `exact <lemma from Proofs/C09_proofs.v>`.
+   Model: Model/C09.v.  `session mac_ok c ins` = everything one Transport does from the start of run()
+   when fed the inputs `ins` (wire packets, and sends by other threads); `step` = one iteration of the run
+   loop; `mac_ok` = the packetizer's MAC verification, constrained only by `mac_binds` (C02's premise). *)
 From PV Require Import Bytes C09 C09_proofs.
 Open Scope Z_scope.
-Theorem C09_stub : True. Proof. exact c09_stub. Qed.
-Print Assumptions C09_stub.
+
+(* In every reachable state with strict kex agreed and the initial key exchange not finished, a packet
+   whose type is not the next expected key-exchange message ends the connection: MessageOrderError
+   (or the DISCONNECT it carries closes the transport, or it could not even be read). *)
+Theorem C09_strict_abort :
+  forall mac_ok c ins st outs p,
+    session mac_ok c ins = (Continue, st, outs) ->
+    agreed st = true -> kdone st = false ->
+    mem (p_type p) (expected st) = false ->
+    let o := fst (fst (step mac_ok c st p)) in
+    o = AbortMOE \/ (p_type p = MSG_DISCONNECT /\ o = Closed) \/
+    (readable mac_ok st p = false /\ o = AbortSSH).
+Proof. exact strict_abort. Qed.
+Print Assumptions C09_strict_abort.
+
+(* ... and IGNORE, DEBUG, UNIMPLEMENTED, every unknown type -- anything but 20, 21, 30..34 -- is never
+   the next expected message while the initial key exchange runs (for every kex method, both roles) *)
+Theorem C09_never_expected :
+  forall mac_ok c ins st outs t,
+    session mac_ok c ins = (Continue, st, outs) -> kdone st = false ->
+    kexmsg t = false -> mem t (expected st) = false.
+Proof. exact never_expected. Qed.
+Print Assumptions C09_never_expected.
+
+(* a KEXINIT carrying the peer's strict marker that is not the first packet received ends the
+   connection; with MessageOrderError when it is the awaited KEXINIT (sequence numbers cannot be wrapped
+   round to zero during the initial exchange: the roll-over check) *)
+Theorem C09_kexinit_not_first :
+  forall mac_ok c ins st outs p,
+    session mac_ok c ins = (Continue, st, outs) ->
+    kdone st = false -> nrecv st <> 0 -> c_adv c = true ->
+    p_type p = MSG_KEXINIT -> p_marker p = 1 ->
+    let o := fst (fst (step mac_ok c st p)) in
+    o <> Continue /\
+    (readable mac_ok st p = true -> expected st = [MSG_KEXINIT] -> o = AbortMOE).
+Proof. exact kexinit_not_first. Qed.
+Print Assumptions C09_kexinit_not_first.
+
+(* sequence numbers restart at zero after every NEWKEYS, in both directions, at every exchange (no
+   assumption on kdone: initial exchange and re-keys alike), whenever strict kex is agreed:
+   inbound after a NEWKEYS is accepted; outbound: whatever follows a NEWKEYS we send carries 0 *)
+Theorem C09_seq_reset :
+  forall mac_ok c st p,
+  (forall st' outs, step mac_ok c st p = (Continue, st', outs) ->
+     p_type p = MSG_NEWKEYS -> agreed st = true -> seq_in st' = 0 /\ ep_in st' = ep_in st + 1) /\
+  (forall o st' outs i q, step mac_ok c st p = (o, st', outs) -> agreed st' = true ->
+     nth_error outs i = Some q -> p_type q = MSG_NEWKEYS ->
+     match nth_error outs (S i) with Some r => p_mseq r = 0 | None => seq_out st' = 0 end) /\
+  (agreed st = true ->
+     let '(st', q) := send1 c st MSG_NEWKEYS in
+     p_type q = MSG_NEWKEYS /\ p_mseq q = seq_out st /\ seq_out st' = 0 /\ ep_out st' = ep_out st + 1).
+Proof. exact seq_reset_all. Qed.
+Print Assumptions C09_seq_reset.
+
+(* No working-but-shifted session.  S is any transport (fed anything at all); R is any transport that is
+   fed an arbitrary packet stream in which every protected packet is one S really sent (the
+   man-in-the-middle may insert any unprotected packets, delete, duplicate and reorder, but cannot make a
+   MAC) and that has not aborted.  If strict kex was agreed at each NEWKEYS S sent and at each NEWKEYS R
+   accepted, then the protected packets R accepted are exactly S's protected packets, in order, from
+   the first one, without gap or repetition.  (g_out / g_in are ghost flags recording "agreed at every
+   NEWKEYS"; the length bound says S's counter did not wrap -- re-keying, C10, keeps it far below.) *)
+Theorem C09_no_shift :
+  forall mac_ok, mac_binds mac_ok ->
+  forall cS cR insS insR oS stS outsS stR outsR,
+    session mac_ok cS insS = (oS, stS, outsS) ->
+    session mac_ok cR insR = (Continue, stR, outsR) ->
+    (forall p, In p (recvs insR) -> p_epoch p <> 0 -> In p outsS) ->
+    g_out stS = true -> g_in stR = true ->
+    Z.of_nat (length outsS) < SEQ_MOD ->
+    exists rest, filter enc outsS = filter enc (recvs insR) ++ rest.
+Proof. exact no_shift. Qed.
+Print Assumptions C09_no_shift.
+
+(* the same for edit scripts: keep / delete each packet S sent, insert unprotected packets anywhere *)
+Theorem C09_no_shift_edits :
+  forall mac_ok, mac_binds mac_ok ->
+  forall cS cR insS insR es oS stS outsS stR outsR,
+    session mac_ok cS insS = (oS, stS, outsS) ->
+    session mac_ok cR insR = (Continue, stR, outsR) ->
+    recvs insR = apply_edits es outsS -> ins_plain es = true ->
+    g_out stS = true -> g_in stR = true ->
+    Z.of_nat (length outsS) < SEQ_MOD ->
+    exists rest, filter enc outsS = filter enc (recvs insR) ++ rest.
+Proof. exact no_shift_edits. Qed.
+Print Assumptions C09_no_shift_edits.
+
+(* the k-th packet a strict sender sends after its first NEWKEYS carries sequence number k (and, by
+   mac_binds, is verified by the receiver under exactly that number) *)
+Theorem C09_sender_kth :
+  forall mac_ok c ins o st outs k p,
+    session mac_ok c ins = (o, st, outs) ->
+    Z.of_nat (length outs) < SEQ_MOD -> g_out st = true ->
+    nth_error (filter (fun q => p_epoch q =? 1) outs) k = Some p -> p_mseq p = Z.of_nat k.
+Proof. exact sender_kth. Qed.
+Print Assumptions C09_sender_kth.
+
+(* Terrapin when strict kex is off (documented behaviour, not a violation of this property): with an
+   IGNORE inserted before the server's NEWKEYS and the server's first protected packet (EXT_INFO, sent
+   under sequence number 3) deleted, both sides carry on and the client reads the server's packets 4, 5
+   under its own 4, 5: a working session with a packet missing. *)
+Theorem C09_nonstrict_shift_exists :
+  let n := scenario (cfg_of Client KDH false true) (cfg_of Server KDH false true) terrapin_script false in
+  o_c n = Continue /\ o_s n = Continue /\
+  tx_s n = [20; 0; 31; 1; 21; 2; 7; 3; 6; 4; 52; 5] /\
+  rx_c n = [20; 0; 31; 1; 2; 2; 21; 3; 6; 4; 52; 5].
+Proof. exact nonstrict_shift. Qed.
+Print Assumptions C09_nonstrict_shift_exists.
+
+(* the same script against strict peers: MessageOrderError at the IGNORE *)
+Theorem C09_strict_same_script_aborts :
+  let n := scenario (cfg_of Client KDH true true) (cfg_of Server KDH true true) terrapin_script false in
+  o_c n = AbortMOE /\ rx_c n = [20; 0; 31; 1; 2; 2].
+Proof. exact strict_no_shift_same_script. Qed.
+Print Assumptions C09_strict_same_script_aborts.
+
+(* ---- non-vacuity ---- *)
+(* the borrowed premise is satisfiable *)
+Example C09_mac_premise_satisfiable : mac_binds mac_ideal.
+Proof. exact mac_ideal_binds. Qed.
+
+Definition ex_pk (t m e s : Z) : pkt := {| p_type := t; p_ok := true; p_marker := m; p_epoch := e; p_mseq := s |}.
+Definition ex_cC := cfg_of Client KDH true true.
+Definition ex_cS := cfg_of Server KDH true true.
+
+(* C09_strict_abort's hypotheses hold in a concrete state (client that has read the server's KEXINIT
+   and waits for KEXECDH_REPLY), where an IGNORE indeed raises MessageOrderError *)
+Example C09_strict_abort_example :
+  let r := session mac_ideal ex_cC [Recv (ex_pk 20 1 0 0)] in
+  let st := snd (fst r) in
+  fst (fst r) = Continue /\
+  agreed st = true /\ kdone st = false /\ expected st = [31] /\
+  mem MSG_IGNORE (expected st) = false /\
+  fst (fst (step mac_ideal ex_cC st (ex_pk MSG_IGNORE 0 0 1))) = AbortMOE.
+Proof. vm_compute. repeat split; reflexivity. Qed.
+
+(* C09_no_shift's hypotheses hold for a complete strict handshake followed by protected traffic: the
+   server is fed the client's packets, the client is fed what the server sent; three protected packets
+   are accepted, exactly the three sent *)
+Definition ex_insS : list input :=
+  map Recv [ex_pk 20 1 0 0; ex_pk 30 0 0 1; ex_pk 21 0 0 2; ex_pk 5 0 1 0; ex_pk 50 0 1 1].
+Definition ex_outsS : list pkt := snd (session mac_ideal ex_cS ex_insS).
+Definition ex_insR : list input :=
+  map Recv (firstn 4 ex_outsS) ++ [Local [5]] ++ map Recv (skipn 4 ex_outsS).
+Example C09_no_shift_example :
+  let rS := session mac_ideal ex_cS ex_insS in
+  let rR := session mac_ideal ex_cC ex_insR in
+  fst (fst rS) = Continue /\ snd rS = ex_outsS /\ fst (fst rR) = Continue /\
+  g_out (snd (fst rS)) = true /\ g_in (snd (fst rR)) = true /\
+  recvs ex_insR = ex_outsS /\   (* so every protected packet fed to R is one S sent *)
+  map p_type (filter enc (recvs ex_insR)) = [7; 6; 52] /\
+  filter enc (recvs ex_insR) = filter enc ex_outsS.
+Proof. vm_compute. repeat split; reflexivity. Qed.
